@@ -96,10 +96,45 @@ class AntsSpec(Spec):
         "(cross-checked against the unreduced exploration on sampled scenarios) and inner-worker symmetry",
     ]
 
+    # synchronisation skeleton of the anchored functions: the calls / channel receives that the model's transitions
+    # transcribe one by one (hook calls and pure helpers are ignored). A different skeleton means the model no longer
+    # describes the code even if no sampled schedule shows a difference (e.g. a dropped `<-doneChan` is invisible
+    # without a yield point between the CAS and the publication).
+    SKELETON = {
+        "ants.taskCallback.runTaskOnce": (4, ["context.WithTimeout", "cancel", "my.pool.sendInnerCallback", "close", "my.handler",
+                                              "ctx1.Done", "atomic.CompareAndSwapInt32", "ctx1.Done",
+                                              "atomic.CompareAndSwapInt32"]),
+        "ants.taskCallback.run": (0, ["my.wg.Done", "my.runTaskOnce", "onError"]),
+        "ants.taskCallback.Get2": (0, ["my.wg.Wait"]),
+        "ants.taskCallback.Err": (0, ["my.wg.Wait"]),
+        "ants.poolImpl.Send": (1, ["createTaskOptions", "len", "cap", "onError", "newTaskDiscard", "newTaskCallback"]),
+        "ants.poolImpl.sendInnerCallback": (1, []),
+        "ants.poolImpl.goDispatchTask": (2, ["task.run"]),
+        "ants.poolImpl.goDispatchInnerCallback": (2, ["callback"]),
+    }
+    IGNORED_CALLS = {"verifYield", "make", "panic", "loom.DumpIfPanic"}
+
     def extra(self, ctx):
         ex = ctx.get("ex")
         if ex and "model" in ex:
             ctx["coverage"]["monitor_overflow_lines"] = sum(1 for m in ex["model"] if m.startswith("ok overflow"))
+        funcs = (ctx.get("facts") or {}).get("funcs", {})
+        if not any(k.startswith("ants.") for k in funcs):
+            return
+        bad = []
+        for fn, (recvs, calls) in self.SKELETON.items():
+            f = funcs.get(fn)
+            if f is None:
+                bad.append("%s is missing" % fn)
+                continue
+            got_recv = sum(1 for x in f.get("sig", []) if x == "u<-")
+            got_calls = [c for c in f.get("calls", []) if c not in self.IGNORED_CALLS]
+            if got_recv != recvs or got_calls != calls:
+                bad.append("%s: %d channel receives/sends-in-select and calls %s, the model transcribes %d and %s" % (
+                    fn, got_recv, got_calls, recvs, calls))
+        ctx["coverage"]["sync_skeleton_ok"] = not bad
+        if bad:
+            ctx["broken"].append({"layer": "L2", "what": "synchronisation skeleton changed: " + "; ".join(bad)})
 
     def crashed(self, impl):
         if impl.startswith("panic") or impl.startswith("<") or impl.startswith("bad-script"):
